@@ -1231,6 +1231,16 @@ def run_sequences(out, ctx):
                     new = seq_transform(cur, op, rng, seed * 977 + i)
                 except Exception as e:
                     desc["steps"].append(op)
+                    import traceback as _tb
+                    if op == "add-mvn" and "received invalid diagonal" in str(e) and \
+                            "kronecker_product_linear_operator.py" in "".join(_tb.format_tb(e.__traceback__)[-2:]):
+                        # raised inside the installed linear_operator (outside /repo): KroneckerProductLinearOperator.__add__ of a
+                        # DiagLinearOperator with a LARGER batch shape calls add_diagonal, which refuses to broadcast
+                        out.fail("external:linear_operator:KroneckerProductLinearOperator.add_diagonal:diag-with-larger-batch",
+                                 "Kronecker-covariance MVN + diagonal-covariance MVN of larger batch shape raised %r inside linear_operator" % e,
+                                 dict(desc))
+                        failed = True
+                        break
                     out.fail("seq:%s:%s:after-%s:raises-%s" % (op, rep, seq_sign(cur.made_by), exc_name(e)),
                              "%s raised %r after the operations %s" % (op, e, desc["steps"][:-1]), dict(desc))
                     failed = True
